@@ -8,8 +8,10 @@ import Blots.Props.C06
   `Blots/Model/Cli.lean`: the statement loop of `evaluate_source` over the driver's
   observations (`Event`) of an ABSTRACT evaluator, and `Blots/Model/Json.lean` for the
   input merge.  A statement "parsed and evaluated successfully" = `Event.succeeded`
-  (for `output f` of a function this includes the portability check, whose failure the CLI
-  reports as `[output error]`).
+  (for an `output` this includes the two checks whose failure the CLI reports as
+  `[output error]`: a function must be portable, the value must not contain NaN / ±inf).
+  The model follows /repo after the fixes b646a47 (`output n` of a name that evaluates
+  without being bound emits the evaluated value) and afa129b (non-finite output = error).
 
   Not modelled (observed by the harness on the real binary): clap's argument parsing,
   file / inline / `-e` source selection, the `--output` file, the error text.
@@ -99,93 +101,117 @@ theorem later_statements_do_not_change (evs later : List Event)
       exfalso
       have hm := lookupLast_mem hl
       obtain ⟨e, he, hes⟩ := List.mem_filterMap.mp hm
-      apply hk e he
-      cases e with
-      | expr r => simp [Event.stored, Event.declaredValue] at hes
-      | comment => simp [Event.stored, Event.declaredValue] at hes
-      | outIdent n r b p =>
-        cases b with
-        | none => simp [Event.stored, Event.declaredValue] at hes
-        | some v =>
-          simp only [Event.stored, Event.declaredValue] at hes
-          cases hf : fromValue v <;> simp [hf] at hes
-          simp [Event.declaredName, hes.1]
-      | outAssign n r p =>
-        cases r with
-        | ok v =>
-          simp only [Event.stored, Event.declaredValue] at hes
-          cases hf : fromValue v <;> simp [hf] at hes
-          simp [Event.declaredName, hes.1]
-        | _ => simp [Event.stored, Event.declaredValue] at hes
+      exact hk e he (stored_name hes)
   rw [this]; simp
 
-/-! #### "keys = the names declared with `output`" — false as stated -/
+/-! #### keys = the names declared with `output` -/
 
-/-- full-strength reading: every successfully executed `output` statement contributes its
-    name -/
-def keys_are_declared_names_statement : Prop :=
-  ∀ evs : List Event, (∀ e ∈ evs, e.succeeded = true) →
-    ∃ obj, (runEvents [] evs).object = some obj ∧
-      obj.map Prod.fst = firstOccurrences (evs.filterMap Event.declaredName)
-
-/-- `output map` (a built-in: evaluates, but `bindings.get("map")` is `None`) succeeds, exits
-    0, and is silently left out of the object.  Same for `output inf`, `output constants`. -/
-theorem keys_are_declared_names_false : ¬ keys_are_declared_names_statement := by
-  intro h
-  obtain ⟨obj, h1, h2⟩ := h [.outIdent "map" (.ok (.builtin "map")) none true] (by decide)
-  have : obj = [] := by
-    have h3 : (runEvents [] [.outIdent "map" (.ok (.builtin "map")) none true]).object = some [] := rfl
-    rw [h3] at h1; cases h1; rfl
-  subst this
-  revert h2; decide
-
-/-- it holds when every `output` names a bound variable whose value can be serialised -/
-theorem keys_are_declared_names_partial (evs : List Event) (h : ∀ e ∈ evs, e.succeeded = true)
-    (hb : ∀ e ∈ evs, e.declaredName.isSome = true → e.stored.isSome = true) :
+/-- Every successfully executed `output` statement contributes its name: the keys of the
+    object are the declared names in order of first declaration.  The hypothesis `hser`
+    only excludes values that `to_serializable_value` refuses (spread values — never the
+    value of a statement in the real evaluator); such an output would be skipped silently,
+    see `unserialisable_output_is_skipped`. -/
+theorem keys_are_declared_names (evs : List Event) (h : ∀ e ∈ evs, e.succeeded = true)
+    (hser : ∀ e ∈ evs, ∀ v, e.declared = some v → (fromValue v).isOk = true) :
     ∃ obj, (runEvents [] evs).object = some obj ∧
       obj.map Prod.fst = firstOccurrences (evs.filterMap Event.declaredName) := by
   obtain ⟨obj, h1, h2⟩ := keys_in_first_declaration_order evs h
-  exact ⟨obj, h1, by rw [h2, stored_names_of_all_stored evs hb]⟩
+  refine ⟨obj, h1, ?_⟩
+  rw [h2, stored_names_of_all_stored evs (fun e he hn => stored_of_succeeded (hser e he) (h e he) hn)]
+
+/-- `output map` (a built-in: evaluates, but `bindings.get("map")` is `None`) is emitted with
+    the value the identifier evaluated to — likewise `output constants`.  (Before commit
+    b646a47 such names were silently left out.) -/
+theorem unbound_name_outputs_evaluated_value :
+    (runEvents [] [.outIdent "map" (.ok (.builtin "map")) none true]).exit = 0 ∧
+    (runEvents [] [.outIdent "map" (.ok (.builtin "map")) none true]).object =
+      some [("map", .obj [("__blots_function", .str "map")])] := by
+  constructor <;> rfl
+
+/-- the only way a successful `output` leaves no key: the value cannot be serialised -/
+theorem unserialisable_output_is_skipped :
+    (runEvents [] [.outAssign "a" (.ok (.spread .null)) true]).exit = 0 ∧
+    (runEvents [] [.outAssign "a" (.ok (.spread .null)) true]).object = some [] := by
+  constructor <;> rfl
 
 example : ∀ e ∈ [Event.outAssign "a" (.ok (.num F64.one)) true, .expr (.ok .null),
+      .outIdent "map" (.ok (.builtin "map")) none true,
       .outIdent "a" (.ok (.num F64.one)) (some (.num F64.one)) true],
-    e.succeeded = true ∧ (e.declaredName.isSome = true → e.stored.isSome = true) := by
-  decide
+    e.succeeded = true ∧ (∀ v, e.declared = some v → (fromValue v).isOk = true) := by
+  intro e he
+  simp only [List.mem_cons, List.mem_nil_iff, or_false] at he
+  rcases he with rfl | rfl | rfl | rfl
+  · exact ⟨by decide, by intro v hv; cases hv; rfl⟩
+  · exact ⟨by decide, by intro v hv; cases hv⟩
+  · exact ⟨by decide, by intro v hv; cases hv; rfl⟩
+  · exact ⟨by decide, by intro v hv; cases hv; rfl⟩
 
-/-! #### "each holding the value the name had" — false for non-finite numbers -/
+/-! #### each key holds the value the name had; non-finite numbers are refused -/
 
-/-- full-strength reading for a single declaration of a data value: the emitted member
-    reads back as a value `.==` to the declared one -/
-def emitted_value_is_declared_value_statement : Prop :=
-  ∀ (pf : ParseFn) (pb : ParseBody) (n : String) (v : Value), isData v = true →
-    ∃ j w, (runEvents [] [.outAssign n (.ok v) true]).object = some [(n, j)] ∧
-      readJson pf pb j = .ok w ∧ veq w v = true
+/-- An output whose serialised value contains NaN or ±inf anywhere in numbers, lists or
+    records is an error: non-zero exit and NO outputs object (JSON cannot denote such a
+    number; before commit afa129b it was written as `0`). -/
+theorem nonfinite_output_is_error (outs : Outputs) (evs : List Event) (e : Event) (he : e ∈ evs)
+    (v : Value) (sv : SV) (hd : e.declared = some v) (hsv : fromValue v = .ok sv)
+    (hnf : sv.finite = false) :
+    (runEvents outs evs).exit ≠ 0 ∧ (runEvents outs evs).object = none := by
+  apply runEvents_failed evs outs
+  refine ⟨e, he, ?_⟩
+  have hw : writable v = false := by simp [writable, hsv, hnf]
+  cases e with
+  | expr r => simp [Event.declared] at hd
+  | comment => simp [Event.declared] at hd
+  | outIdent n r b p => simp [Event.succeeded, hd, hw]
+  | outAssign n r p => simp [Event.succeeded, hd, hw]
 
-/-- `output a = inf` emits `{"a":0}` -/
-theorem emitted_value_is_declared_value_false : ¬ emitted_value_is_declared_value_statement := by
-  intro h
-  obtain ⟨j, w, h1, h2, h3⟩ := h (fun _ => none) (fun _ => none) "a" (.num F64.inf) (by decide)
-  have hobj : (runEvents [] [.outAssign "a" (.ok (.num F64.inf)) true]).object =
-      some [("a", .num F64.zero)] := by
-    simp [runEvents, stepEvent, declare, fromValue, insertAL, writeOutputs, C06.nonfinite_written_as_zero.1]
-  rw [hobj] at h1
-  simp only [Option.some.injEq, List.cons.injEq, Prod.mk.injEq, true_and, and_true] at h1
-  subst h1
-  simp only [readJson, Json.norm, fromJson, toValue, Outcome.ok.injEq] at h2
-  subst h2
-  revert h3; decide
+example : (runEvents [] [.outAssign "a" (.ok (.list [.num F64.one, .num F64.inf])) true]).exit = 1 ∧
+    (runEvents [] [.outIdent "inf" (.ok (.num F64.inf)) none true]).exit = 1 := by decide
 
-/-- it holds for finite data without function-shaped records (C06) -/
-theorem emitted_value_is_declared_value_partial (pf : ParseFn) (pb : ParseBody) (n : String) (v : Value)
-    (hd : isData v = true) (sv : SV) (hsv : fromValue v = .ok sv) (hf : sv.finite = true)
-    (hn : sv.noFn pf = true) :
+/-- A successful `output n = e` of a data value emits, under `n`, a tree that reads back
+    as a value `.==` to the declared one.  Success already implies that every number is
+    finite; `hn` is the exclusion clause of C06 (a record shaped like a function object
+    denotes a function when read back). -/
+theorem emitted_value_is_declared_value (pf : ParseFn) (pb : ParseBody) (n : String) (v : Value)
+    (hd : isData v = true) (hs : (Event.outAssign n (.ok v) true).succeeded = true)
+    (sv : SV) (hsv : fromValue v = .ok sv) (hn : sv.noFn pf = true) :
     ∃ j w, (runEvents [] [.outAssign n (.ok v) true]).object = some [(n, j)] ∧
       readJson pf pb j = .ok w ∧ veq w v = true := by
+  have hf : sv.finite = true := by
+    simpa [Event.succeeded, Event.declared, Outcome.isOk, writable, hsv] using hs
   obtain ⟨j, w, h1, h2, h3⟩ := C06.data_roundtrip pf pb v hd sv hsv hf hn
   refine ⟨j, w, ?_, h2, h3⟩
   simp only [writeJson, hsv, Outcome.ok.injEq] at h1
   subst h1
-  simp [runEvents, stepEvent, declare, hsv, insertAL, writeOutputs]
+  have hw : writable v = true := by simp [writable, hsv, hf]
+  simp [runEvents, stepEvent, stepOutput, Event.declared, Outcome.isOk, hw, declare, hsv, insertAL,
+    writeOutputs]
+
+/-- in general: whatever is stored is finite, so `to_json` writes it without loss (the
+    `non-finite ↦ 0` rule of `to_json` is unreachable from the CLI's outputs) -/
+theorem stored_values_are_finite (e : Event) (hs : e.succeeded = true) (n : String) (sv : SV)
+    (hst : e.stored = some (n, sv)) : sv.finite = true := by
+  unfold Event.stored Event.declaredValue at hst
+  cases hn : e.declaredName with
+  | none => simp [hn] at hst
+  | some m =>
+    cases hd : e.declared with
+    | none => simp [hn, hd] at hst
+    | some v =>
+      simp only [hn, hd] at hst
+      cases hf : fromValue v with
+      | ok sv' =>
+        simp only [hf, Option.some.injEq, Prod.mk.injEq] at hst
+        obtain ⟨_, rfl⟩ := hst
+        cases e with
+        | expr r => simp [Event.declared] at hd
+        | comment => simp [Event.declared] at hd
+        | outIdent n' r b p =>
+          simp only [Event.succeeded, hd, Bool.and_eq_true, writable, hf] at hs
+          exact hs.2.2
+        | outAssign n' r p =>
+          simp only [Event.succeeded, hd, Bool.and_eq_true, writable, hf] at hs
+          exact hs.2.2
+      | _ => simp [hf] at hst
 
 /-! #### the loop over an abstract evaluator; parse and input errors -/
 
